@@ -308,6 +308,7 @@ int liberasurecode_instance_create(const ec_backend_id_t id,
     instance->desc.backend_desc = instance->common.ops->init(
             &instance->args, instance->desc.backend_sohandle);
     if (NULL == instance->desc.backend_desc) {
+        liberasurecode_backend_close(instance);
         free (instance);
         return -EBACKENDINITERR;
     }
